@@ -117,4 +117,59 @@ theorem yield_loop_accepted :
       .idle false false, .idleYield, .idleContinue, .get1 3 (some 64) 0 0]).dis.isEmpty = true := by
   decide +kernel
 
+/-! ## Over whole runs of the scheduler LTS -/
+
+open Cuke.SchedInv
+
+/-! ### stages of the idle branch -/
+def idle1 (s : SState) : SState := ({ s with pos := s.pos + 1 } : SState).inPhase [.afterGet2] "idle branch"
+def idle2 (s : SState) (fin : Bool) : SState := { idle1 s with phase := if fin then .exiting else .idle1 }
+def idle3 (s : SState) (fin : Bool) : SState :=
+  chk (idle2 s fin) ((idle2 s fin).running.isEmpty && (idle2 s fin).endedUnconsumed == 0 && (idle2 s fin).batch.isEmpty) .I
+    "idle branch taken although something is running or runnable"
+def idle4 (s : SState) (fin : Bool) : SState :=
+  chk (idle3 s fin) (fin == isFinished (idle3 s fin).parserDone (idle3 s fin).slots.isBrk (idle3 s fin).q) .I
+    s!"is_finished = {fin}, model {isFinished (idle3 s fin).parserDone (idle3 s fin).slots.isBrk (idle3 s fin).q}"
+
+theorem idle_dis (c : SCfg) (s : SState) (fin sleep : Bool) : (stepL c s (.idle fin sleep)).dis = (idle4 s fin).dis := by
+  cases fin <;> rfl
+
+/-- **The loop is left only when there is nothing left to do, in every accepted run**: when `execute`
+    takes its exit (`is_finished` reported true), nothing is running, finished-but-unconsumed or runnable,
+    the parser has ended, and — unless fail-fast tripped — both queues of the model (= of the
+    implementation, class Q) are empty: every scenario that was inserted has been handed out. -/
+theorem lts_exit_only_when_done (c : SCfg) (pre suf : List Label) (sleep : Bool)
+    (hg : Good (accept c (pre ++ Label.idle true sleep :: suf)) = true) :
+    (accept c pre).running = [] ∧ (accept c pre).endedUnconsumed = 0 ∧ (accept c pre).batch = [] ∧
+    (accept c pre).parserDone = true ∧
+    ((accept c pre).slots.isBrk = false → (accept c pre).q.serial = [] ∧ (accept c pre).q.conc = []) := by
+  have hgd : Good (stepL c (accept c pre) (.idle true sleep)) = true := by
+    simp only [accept, foldl_append, foldl_cons] at hg
+    exact Cuke.C06.good_foldl_mono c suf _ hg
+  have hg4 : Good (idle4 (accept c pre) true) = true := by
+    rw [← good_of_dis _ _ (idle_dis c (accept c pre) true sleep)]; exact hgd
+  obtain ⟨hb4, hg3⟩ := good_chk _ _ _ _ (Or.inr (Or.inl rfl)) hg4
+  obtain ⟨hb3, _⟩ := good_chk _ _ _ _ (Or.inr (Or.inl rfl)) hg3
+  have e3 : idle3 (accept c pre) true = idle2 (accept c pre) true := chk_of_true _ _ _ _ hb3
+  have fr : (idle2 (accept c pre) true).running = (accept c pre).running := by simp [idle2, idle1]
+  have fe : (idle2 (accept c pre) true).endedUnconsumed = (accept c pre).endedUnconsumed := by simp [idle2, idle1]
+  have fb : (idle2 (accept c pre) true).batch = (accept c pre).batch := by simp [idle2, idle1]
+  have fq : (idle2 (accept c pre) true).q = (accept c pre).q := by simp [idle2, idle1]
+  have fs : (idle2 (accept c pre) true).slots = (accept c pre).slots := by simp [idle2, idle1]
+  have fp : (idle2 (accept c pre) true).parserDone = (accept c pre).parserDone := by
+    simp only [idle2, idle1]
+    unfold SState.inPhase; split <;> rfl
+  rw [fr, fe, fb] at hb3
+  simp only [Bool.and_eq_true, List.isEmpty_iff, beq_iff_eq] at hb3
+  rw [e3, fp, fs, fq] at hb4
+  have hfin : isFinished (accept c pre).parserDone (accept c pre).slots.isBrk (accept c pre).q = true := by
+    simpa using hb4.symm
+  refine ⟨hb3.1.1, hb3.1.2, hb3.2, ?_, ?_⟩
+  · unfold isFinished at hfin
+    simp only [Bool.and_eq_true] at hfin
+    exact hfin.1
+  · intro hnb
+    rw [hnb] at hfin
+    exact (exit_needs_empty_queues _ _ hfin).2
+
 end Cuke.C04
